@@ -22,15 +22,21 @@ def data_line(ndx, tt, fwtag):
     return ":" + b.hex().upper() + "\n", b
 
 
-def render(sections, header=(("Creator", "unit"), ("Bf3Update", "1")), trailing=()):
-    """BF2 text; also records for every section the raw line bytes in file order"""
+def render(sections, header=(("Creator", "unit"), ("Bf3Update", "1")), trailing=(), start_markers="alternate"):
+    """BF2 text; also records for every section the raw line bytes in file order.  A data group may be opened by a start
+    marker line (TT = FE, no payload); it carries no data and is not part of any section: start_markers = "all" | "none" |
+    "alternate" (every other section, so that both forms occur in every multi-section text)"""
     out = []
     for k, v in header:
         out.append("##%s: %s\n" % (k, v))
     ndx = 0
-    for s in sections:
+    for k_, s in enumerate(sections):
         for name, params in s.instrs:
             out.append("#>%s %s\n" % (name, params) if params else "#>%s\n" % name)
+        if start_markers == "all" or (start_markers == "alternate" and k_ % 2 == 0):
+            txt, _ = data_line(ndx, 0xFE, b"")
+            out.append(txt)
+            ndx += 1
         ext = s.extents if s.extents is not None else [(0, s.image)]
         s.lines = []
         for adr, data in ext:
